@@ -170,6 +170,9 @@ func (server *SugarDB) handleCommand(ctx context.Context, message []byte, conn *
 				break
 			}
 		}
+		// The flag is lowered again on every way out (handler errors and the replicated paths included):
+		// a state copy waits for it.
+		defer server.stateMutationInProgress.Store(false)
 	}
 
 	if !server.isInCluster() || !synchronize {
@@ -182,8 +185,6 @@ func (server *SugarDB) handleCommand(ctx context.Context, message []byte, conn *
 			// Log the command under the database it was executed in (TCP and embedded callers alike).
 			server.aofEngine.LogCommand(ctx.Value("Database").(int), message)
 		}
-
-		server.stateMutationInProgress.Store(false)
 
 		return res, err
 	}
